@@ -606,6 +606,45 @@ def make_history(rng, kind):
     return exprs, plan
 
 
+def directed_histories():
+    """integer shapes that earlier seeded defects needed, as one-expression histories -- kept
+    deterministic because a catch that depends on the random stream is not a catch"""
+    x, y, z = V[0], V[1], V[2]
+    out = []
+    for R in (p.Remainder, p.FloorDiv):
+        rem = R(p.Sum((x, 5)), p.Sum((y, 2)))
+        for wrapped in (p.Product((rem,)), p.Sum((rem,)), p.Power(rem, 1), rem,
+                        p.Product((p.Product((rem,)),))):
+            out.append(p.Product((z, wrapped)))
+            out.append(p.Product((wrapped, p.Sum((z, 3)))))
+            out.append(p.Remainder(p.Product((p.Sum((z, 7)), wrapped)), 5))
+    out.append(p.FloorDiv(p.Sum((z, 40)), p.Power(p.Product((p.Sum((x, 1)), p.Sum((y, 1)))), 1)))
+    out.append(p.Sum((x, p.Product((-1, p.Sum((y, z)))))))
+    out.append(p.Sum((x, p.Product((-1, p.Sum((y, p.Product((-1, z)))))), 4)))
+    out.append(p.Product((p.Sum((x, p.Product((-1, y)))), p.Sum((z,)))))
+    out.append(p.If(p.Comparison(p.Sum((x, 1)), "<", p.Product((y, 2))), p.Sum((z, 1)), p.Product((z, 2))))
+    # an application-defined node that prints itself through the documented hook
+    from .. import usertypes as U
+    for ub in (U.UBiased(x, 1), U.UBiased(p.Product((x, 2)), y)):
+        out += [p.Product((3, ub)), p.Sum((y, 40, p.Product((-1, ub)))),
+                p.Remainder(p.Product((p.Sum((y, 1)), 100)), p.Sum((ub, 4))),
+                p.Product((ub, ub)), p.FloorDiv(p.Product((z, 50)), p.Sum((ub, 1))),
+                p.Sum((CSE(p.Product((2, ub)), "h"), CSE(p.Product((2, ub)), "h")))]
+    hists = [([e], [("map", 0, 0)]) for e in out]
+    # hoisted names at every length: prefixes of 1 .. 130 characters, two DIFFERENT wrapped
+    # children asking for the same long prefix, and the first one again afterwards
+    import random
+    r = random.Random(14)
+    from ..gen import scale
+    for n in scale.NAME_LENGTHS:
+        pre = scale.name(r, n, head="t")
+        k1, k2, k3 = CSE(p.Sum((x, 11)), pre), CSE(p.Sum((y, 12)), pre), CSE(p.Product((z, 3)), pre + "_2")
+        es = [p.Sum((k1, p.Product((k2, 3)))), p.Product((k2, k1)), p.Sum((k3, k1, k2)),
+              p.Sum((CSE(p.Sum((x, 11)), pre), 1))]
+        hists.append((es, [("map", 0, 0), ("map", 1, 0), ("copy", 0), ("map", 2, 1), ("map", 3, 0)]))
+    return hists
+
+
 def workload(ctx):
     rng = ctx.rng
     with HandlerTrace([cmod, strmod]) as tr:
@@ -618,6 +657,10 @@ def workload(ctx):
                     h = make_history(rng, kind)
                     if h is not None:
                         hists.append(h)
+                if kind == "int" and u == 0 and ctx.shard == 0:
+                    dh = [h for h in directed_histories() if in_range(h[0][0], GRID_I)]
+                    ctx.count("directed_histories", len(dh))
+                    hists += dh
                 for h in hists:
                     ctx.case((kind, normal.typed_key(tuple(h[0])), tuple(h[1])),
                              any(normal.count_ops(e) >= 2 for e in h[0]), n=0)
@@ -644,4 +687,5 @@ def workload(ctx):
     ctx.floor("compiler:clang-san", 2000)
     ctx.floor("cse_assignments", 100)
     ctx.floor("histories", 300)
+    ctx.floor("directed_histories", 55)
     ctx.floor("failed_renders_in_history", 30)
